@@ -23,7 +23,7 @@ NCPU = min(16, os.cpu_count() or 4)
 
 NONSTEP = {'reset', 'uaf', 'blocked', 'deadlock', 'budget', 'diverge', 'diverged', 'escaped', 'done', 'terminate', 'hang',
            'crash', 'enabled'}
-LIFE = {'spawn', 'start', 'end', 'join', 'done', 'enabled'}
+LIFE = {'spawn', 'start', 'end', 'join', 'done', 'enabled', 'pu'}
 ENDK = {'deadlock', 'budget', 'diverged', 'terminate', 'hang', 'crash'}
 
 
@@ -338,7 +338,7 @@ def validate(files, module, cfg, jobs=None, tag='val', invariants_are_drift=True
     stats = {'states': 0, 'wall': 0.0}
 
     def one(f):
-        r = run_tlc(module, cfg, workers=1, env={'TRACE': f}, xmx=xmx, tag=tag, timeout=3000)
+        r = run_tlc(module, cfg, workers=1, env={'TRACE': f}, xmx=xmx, tag=tag, timeout=900)
         return f, r
 
     with ThreadPoolExecutor(max_workers=jobs) as ex:
